@@ -103,8 +103,15 @@ macro_rules! impl_multi_subscription {
         self.0.rc_deref_mut().as_mut().map_or(0, |vec| vec.len())
       }
       pub fn append(&mut self, v: $box_ty) {
-        if let Some(vec) = self.0.rc_deref_mut().as_mut() {
-          vec.push(Some(v));
+        let mut inner = self.0.rc_deref_mut();
+        match inner.as_mut() {
+          Some(vec) => vec.push(Some(v)),
+          None => {
+            // already unsubscribed: tear the late addition down at once
+            // instead of dropping the handle and leaving it running
+            drop(inner);
+            v.unsubscribe();
+          }
         }
       }
       pub fn retain(&mut self) {
